@@ -39,7 +39,7 @@ var ruleTable = []RuleDef{
 	{"R-ATOMIC-ENQ", (*Model).ruleATOMICENQ, "the event of a committed mutation is enqueued inside the bucket-mutex critical section of its commit"},
 	{"R-BACKFILL-GAP", (*Model).ruleBACKFILLGAP, "the backfill snapshot and the registration for live events form one critical section of the bucket mutex"},
 	{"R-REGISTRY", (*Model).ruleREGISTRY, "handles are handed out only after a counted increment under the registry lock; store shutdown and registry-entry removal are one critical section; deleting a bucket always reaches the removal of its files; Close releases the registry reference only on the first close and sets the closed flag under the bucket mutex"},
-	{"R-SHUTDOWN", (*Model).ruleSHUTDOWN, "the shutdown routine stops the expiry timer and closes every feed of the shared registry before closing the database"},
+	{"R-SHUTDOWN", (*Model).ruleSHUTDOWN, "the shutdown routine stops the expiry timer and closes every feed of the shared registry before closing the database; the feed's own closer reaches the queue's close on every path"},
 	{"R-DONE", (*Model).ruleDONE, "the feed loop registers, on every path before the loop, a deferred close of its done channel guarded only by 'non-nil'; starts its terminator watcher whenever a terminator is given; calls the callback only for non-nil events; multi-collection starts use fresh per-collection done channels and one coalesced close"},
 	{"R-OPENMODE", (*Model).ruleOPENMODE, "the registry lookup hands out a cached handle only if mode != CreateNew and the URL matches; the open function fails ReOpenExisting for an absent in-memory bucket and CreateNew for an existing directory, runs the schema script only when user_version is 0, and always re-arms expiry for an existing bucket"},
 	{"R-VIEW", (*Model).ruleVIEW, "index update: obsolete-row delete and re-map select use the same comparator and mark, delete precedes insert, the view mark is the collection mark read in the same transaction; row query ordered by (mapped.key, documents.key) with range operators paired to min/max; JSON collation declared and registered; cached map function reused only when its source is unchanged; design-document replacement deletes before inserting"},
@@ -50,7 +50,7 @@ var ruleTable = []RuleDef{
 	{"R-EVT-ROW", (*Model).ruleEVTROW, "for every transaction closure and every column/field pair (key, value, cas, exp, isJSON, xattrs, revSeqNo, tombstone/isDeletion): the term the closure's event carries equals the term bound into the statement; a literal is reported as that constant; a column computed in SQL or left untouched is reported from a read of that column through the same transaction (after the write when it is computed in SQL)"},
 	{"R-REV", (*Model).ruleREV, "the value bound to revSeqNo is (the row's revSeqNo scanned through the same transaction closure, or zero when there is no row) + 1, exactly one increment on every path; the virtual revision-id xattrs format the revSeqNo their own SELECT read"},
 	{"R-EXP", (*Model).ruleEXP, "(a) every expiry bound into a statement has passed through the offset-to-absolute function, is the row's preserved expiry, or is zero; (b) an operation that stores an expiry without posting an event arms the timer with that same value, and every other arm call gets an absolute expiry; (c) the arm function re-arms exactly when nothing is scheduled or the new expiry is earlier; (d) the timer callback clears the fired deadline and always re-arms from the min-expiry query; (h) the offset conversion applies exactly for 0 < exp <= 30 days"},
-	{"R-CHECKPOINT", (*Model).ruleCHECKPOINT, "the feed loop advances its delivered-CAS mark only from the event just handed to the callback, after the callback, and only upwards; the checkpoint document stores that mark; a resumed feed backfills from mark+1; the checkpoint is written when the loop ends"},
+	{"R-CHECKPOINT", (*Model).ruleCHECKPOINT, "the feed loop advances its delivered-CAS mark only from the event just handed to the callback, after the callback, and only upwards; the checkpoint document stores that mark; a resumed feed backfills from mark+1; the checkpoint is written when the loop ends; no other field of the feed object flows into the start position"},
 	{"R-READ-ONCE", (*Model).ruleREADONCE, "a function that returns a document read outside a transaction obtains it from a single statement on documents"},
 	{"R-POST-ORDER", (*Model).rulePOSTORDER, "in the post function nothing that may acquire a lock is called before the fan-out that enqueues the event"},
 	{"R-FEEDMAP-WRITERS", (*Model).ruleFEEDWRITERS, "a feed-registry entry is only ever updated by appending one new feed to the existing entry"},
